@@ -84,6 +84,23 @@ KeyChainSecrets == << KeySecretOfLen(40, 1), <<>>, KeySecretOfLen(1, 1), KeySecr
 
 HvalSigma == <<32, 97, 98, 44, 9, 233>>
 
+\* C08 size ladder (canonical URI length around the http crate's 65534 limit, and far beyond)
+FoldSizes == <<0, 1, 100, 65527, 65528, 65529, 65530, 65531, 65532, 65533, 65534, 65535, 65536, 70000, 1048576>>
+FoldPaths == << B("/"), B("/abc"), B("/a/b/c/d/e/f") >>
+
+ErrKinds == << "ExpiredToken", "IO", "InternalServiceError", "InvalidBodyEncoding", "InvalidClientTokenId",
+               "InvalidContentType", "InvalidRequestMethod", "IncompleteSignature", "InvalidURIPath",
+               "MalformedQueryString", "MissingAuthenticationToken", "SignatureDoesNotMatch" >>
+ErrVias == << "direct", "box", "foreign", "io" >>
+
+\* C05 container: operation alphabet
+VNames == << B("x-a"), B("X-A"), B("x-b"), B("X-a") >>
+VLists == << "always", "ifin", "prefix" >>
+\* op k of 1..24: (add|remove) x list x name
+VOp(k) == [op |-> IF ((k - 1) \div 12) = 0 THEN "add" ELSE "remove",
+           list |-> VLists[(((k - 1) % 12) \div 4) + 1], name |-> VNames[((k - 1) % 4) + 1]]
+VInits == << <<>>, << B("X-A") >>, << B("x-a"), B("X-B") >> >>
+
 \* size of dimension k; 0 = no such dimension
 Dim(k) ==
     CASE Family = "path_segs"    -> IF k = 1 THEN 2 ELSE IF k <= Bound + 1 THEN Len(PathSigma) ELSE 0
@@ -104,6 +121,11 @@ Dim(k) ==
       [] Family = "key_caps"     -> IF k <= 3 THEN <<Len(KeyLens), 3, Len(KeyCaps)>>[k] ELSE 0
       [] Family = "key_chain"    -> IF k <= 4 THEN <<Len(KeyChainSecrets), Len(KeyDates), Len(KeyNames), Len(KeyNames)>>[k] ELSE 0
       [] Family = "hval"         -> IF k <= Bound THEN Len(HvalSigma) ELSE 0
+      [] Family = "foldsize"     -> IF k <= 2 THEN <<Len(FoldSizes), Len(FoldPaths)>>[k] ELSE 0
+      [] Family = "errtable"     -> IF k <= 2 THEN <<Len(ErrKinds), Len(ErrVias)>>[k] ELSE 0
+      [] Family = "builders"     -> IF k = 1 THEN 1 ELSE 0
+      [] Family = "leakfn"       -> IF k = 1 THEN Len(KeyChainSecrets) ELSE 0
+      [] Family = "vreqs"        -> IF k = 1 THEN Len(VInits) ELSE IF k <= Bound + 1 THEN 24 ELSE 0
 
 \* does this node denote a case?  (variable-length families emit at every depth)
 IsCase ==
@@ -111,6 +133,7 @@ IsCase ==
       [] Family = "query_lists"  -> TRUE
       [] Family = "query_ampamp" -> Len(idx) >= 2
       [] Family = "hval"         -> TRUE
+      [] Family = "vreqs"        -> Len(idx) >= 1
       [] OTHER -> Dim(Len(idx) + 1) = 0
 
 TsCase ==
@@ -177,6 +200,13 @@ Case ==
              region |-> KeyNames[idx[3]], service |-> KeyNames[idx[4]]]
       [] Family = "hval" ->
             [op |-> "hval", v |-> [i \in 1..Len(idx) |-> HvalSigma[idx[i]]]]
+      [] Family = "foldsize" -> [op |-> "foldsize", n |-> FoldSizes[idx[1]], path |-> FoldPaths[idx[2]]]
+      [] Family = "errtable" -> [op |-> "err", kind |-> ErrKinds[idx[1]], via |-> ErrVias[idx[2]]]
+      [] Family = "builders" -> [op |-> "builders"]
+      [] Family = "leakfn" -> [op |-> "leakfn", secret |-> KeyChainSecrets[idx[1]]]
+      [] Family = "vreqs" ->
+            [op |-> "vreqs", always |-> VInits[idx[1]], ifin |-> VInits[idx[1]], prefix |-> VInits[idx[1]],
+             ops |-> [i \in 1..(Len(idx) - 1) |-> VOp(idx[i + 1])]]
       [] Family = "query_bytes" ->
             LET sp == Spelling(idx[1] - 1, idx[2]) IN
             [op |-> "query", q |-> CASE idx[3] = 1 -> B("k=") \o sp
